@@ -247,4 +247,22 @@ theorem iface_file_exact (u : IfaceUnit) (hok : u.ok) (st0 : FSt) (ids clzs : Li
   · have := congrArg Hdr.imports hh; simpa [hdr, e11, a8] using this
   · exact entries_all2 IMatch (IMethod.key u.pkg) F.methodMap u.methods hF.hkeys hF.hvals
 
+/-! ### non-vacuity: a concrete interface unit with two methods, one with parameters -/
+
+def demoIface : IfaceUnit :=
+  { pkg := "p", imports := ["q.T"], annos := [], name := "Repo", exts := ["Base"],
+    methods := [
+      { name := "find", ret := "T", annos := [], params := [("long", "id")], l1 := 5, c1 := 4, l2 := 5, c2 := 20, pre := [],
+        tail := [.formalParam "id" "long"] },
+      { name := "all", ret := "List<T>", annos := [], params := [], l1 := 6, c1 := 4, l2 := 6, c2 := 17, pre := [], tail := [] }] }
+
+example : demoIface.ok := by
+  refine ⟨by decide, ?_, by decide⟩
+  intro m hm
+  simp only [demoIface, List.mem_cons, List.not_mem_nil, or_false] at hm
+  rcases hm with rfl | rfl <;> exact ⟨by decide, by simp [bodyEv, isInv]⟩
+
+-- the model run on it (a test, not a proof)
+#guard ((runFile {} [] [] "Repo.java" demoIface.events).classNodes.map fun d => (d.node, d.type, d.fns.map (·.name))) == [("Repo", "Interface", ["find", "all"])]
+
 end CocaVerif.Props.C01Iface
